@@ -783,6 +783,9 @@ def _tidy(r):
 
 
 def _apply_ufunc(ufunc, method, inputs, kw):
+    if ufunc is np.matmul and method == "__call__":
+        from . import npx
+        return npx.matmul(*inputs)
     out = kw.pop("out", None)
     kw.pop("dtype", None)
     kw.pop("casting", None)
